@@ -94,6 +94,12 @@ ADVERSARIAL = [
     {"src": "def f1():\n    raise NameError(\"boom\")\ntry:\n    f1()\nexcept NameError as e:\n    u = str(e)\n", "events": ["load_name"], "guards": True},
     {"src": "def f1():\n    \"\"\"doc\"\"\"\n    global a\n    a = 3\n    for i in range(2):\n        a = a + i\n    return a\nb = f1()\n", "events": ["load_name", "after_for_loop_iter"], "guards": True},
     {"src": "match 1:\n    case 1:\n        u = 2\n    case _:\n        u = 3\n", "events": ["after_int", "load_name"], "guards": True},
+    # a class nested in a function: its declarations are the class's own (the function does not hoist them), directly and inside a block of the class body
+    {"src": "cnt = 0\ndef f1(p=0):\n    y = 1\n    class K:\n        global cnt\n        nonlocal y\n        cnt = cnt + 1\n        y = y + p\n        z = 3\n"
+            "        for i in range(2):\n            global d\n            d = i\n    return (y, sorted(k for k in vars(K) if not k.startswith(\"_\")))\nr1 = f1(2)\nr2 = f1(3)\nu = (cnt, d)\n",
+     "events": ["after_stmt", "load_name"], "guards": True},
+    {"src": "cnt = 0\ndef f1(p=0):\n    y = 1\n    class K:\n        global cnt\n        nonlocal y\n        cnt = cnt + 1\n        y = y + p\n    return (y, sorted(k for k in vars(K) if not k.startswith(\"_\")))\nr1 = f1(2)\nu = cnt\n",
+     "events": [], "guards": False},
 ]
 BUILTINS_RELIED_ON = ("slice", "BaseException", "NameError")
 
